@@ -611,8 +611,10 @@ pub fn run(seed: u64, thorough: bool, rep: &mut Report) {
                         let confirmed: BTreeSet<u32> = w.live.sys.chain.iter().flat_map(|b| b.3.iter().cloned()).collect();
                         let differing: BTreeSet<(u32, u32)> = ka.symmetric_difference(&kb).chain(aa.symmetric_difference(&ab)).cloned().collect();
                         let untracked_confirmed = mined && differing.iter().all(|k| {
-                            // still held, not tracked, and its penalty had been handed to the node and got confirmed
-                            fin.appts.contains_key(k) && !fin.trackers.contains_key(k) &&
+                            // not tracked, and its penalty had been handed to the node and got confirmed (the appointment itself
+                            // is still held, unless a later request of its owner replaced or dropped it: without a tracker
+                            // the tower treats it as an ordinary appointment whose dispute is in the cache)
+                            !fin.trackers.contains_key(k) &&
                             // (the blob as it was when the process died: without a tracker a later submission may replace it)
                             match before.appts.get(k).or(fin.appts.get(k)).and_then(|a| w.live.sys.blobs.get(&a.0)) {
                                 Some(BlobSpec::Enc { penalty, .. }) => w.sent.contains(penalty) && confirmed.contains(penalty),
